@@ -4,13 +4,13 @@ Two halves share this check; the run seed decides which one a run exercises:
   (a) order-level: C17's machine in lock-step, reports fabricated by FIXTester
       (families/order.py: C20aMachine)                                  -- implemented
   (b) session-level: differential simulation helper-acceptor vs real acceptor
-                                                                        -- to be added
+      (families/helperdiff.py: HelperDiffSim)                           -- implemented
 """
-from ..families import order
-from .base import SimCheck
+from ..families import helperdiff, order
+from .base import COMPONENTS_SESSION, SimCheck
 from .c17 import COMPONENTS_ORDER
 
-HALVES = ("a",)  # add "b" here when its machine exists
+HALVES = ("a", "b")
 
 
 class C20(SimCheck):
@@ -25,7 +25,9 @@ class C20(SimCheck):
             "asyncfix.fix_tester.FIXTester (report / request fabrication with a schema)",
             "asyncfix.protocol.schema.FIXSchema over tests/FIX44.xml (trusted as validator)",
         ],
+        "real_half_b": COMPONENTS_SESSION["real"] + ["asyncfix.fix_tester.FIXTester simulated acceptor (the object under test)"],
         "stub": [
+            "half (b): event loop/clock -> SimLoop, TCP -> SimNet with zero latency; the script driver",
             "what happens to the order -> RefExchange (model of the FIX 4.4 order state matrices); the helper only "
             "turns each decision into a message",
         ],
@@ -38,7 +40,11 @@ class C20(SimCheck):
         "pending, AvgPx); every fabricated message is validated against FIX44.xml, checked for CumQty+LeavesQty <= "
         "OrderQty, LeavesQty = 0 when finished, fresh ExecID, stable OrderID, and fed to the order object; an "
         "AssertionError raised by the helper's own statements puts the arguments outside its domain (probe, run "
-        "ends); non-trivial = >= 4 actions and the order was acknowledged"
+        "ends); non-trivial = >= 4 actions and the order was acknowledged. half (b), odd run indices: one evaluation = one "
+        "seeded clean session script (Logon, then 1..24 (quick) / 1..60 (thorough) steps of initiator/acceptor application "
+        "message, TestRequest either way, Heartbeat either way, optionally a final Logout from either side) executed step by "
+        "step in two worlds under one virtual clock -- the initiator class against a real AsyncFIXDummyServer over SimNet, and "
+        "the same class against FIXTester's simulated acceptor -- and compared after every step; non-trivial = script has >= 3 steps"
     )
     assumptions = [
         "FIXSchema is trusted as validator (C15 is not claimed)",
@@ -46,7 +52,10 @@ class C20(SimCheck):
         "not arbitrary tuples",
         "40% of the runs never reject a cancel/replace (avoid_rejects); 50% do not compare the OrderID of an "
         "OrderCancelReject (lenient_reject_orderid), so that what lies behind those two findings is still explored",
-        "half (b) (differential session simulation) is not part of this file yet",
+        "half (b): both worlds share one virtual clock and execute each script step at the same instant; world 1 has zero network latency; "
+        "compared after every step: encoded frames of initiator and acceptor (field-wise without 52/9/10), initiator counters, "
+        "initiator connection_state, initiator on_message deliveries; acceptor state and state sequences are probes; on_connect/on_disconnect are not compared",
+        "half (b) scripts are clean: consecutive numbers, no gaps, Logout (if any) is the last step; starting counters are seeded and non-symmetric in 60% of the runs",
     ]
 
     def chunk(self, tier):
@@ -63,7 +72,7 @@ class C20(SimCheck):
         half = self.half_for(seed, index)
         if half == "a":
             return order.make_config(seed, tier, half="c20a")
-        raise NotImplementedError(half)
+        return helperdiff.make_config(seed, tier)
 
     def machine(self, cfg, trace=None):
         if cfg.get("half", "c20a") == "c20a":
@@ -72,12 +81,35 @@ class C20(SimCheck):
 
     def run_seed(self, seed, tier, index=0, want_sample=False):
         cfg = self.make_config(seed, tier, index)
+        if cfg.get("half") == "c20b":
+            sim = helperdiff.HelperDiffSim(cfg)
+            res = sim.run()
+            res["config"] = cfg
+            res["nontrivial"] = len(cfg["script"]) >= 3
+            if res["violation"] is None:
+                res["trace"] = None
+            if want_sample:
+                res["sample"] = dict(seed=seed, **sim.sample())
+            return res
         return self.machine(cfg).run(want_sample)
 
     def replay(self, cfg, trace):
+        if cfg.get("half") == "c20b":
+            res = helperdiff.HelperDiffSim(cfg, trace).run()
+            res["config"] = cfg
+            return res
         return self.machine(cfg, trace or {"actions": []}).run()
 
     def show_replay(self, cfg, trace, n):
+        if cfg.get("half") == "c20b":
+            sim = helperdiff.HelperDiffSim(cfg, trace)
+            sim.run()
+            print("   script:", cfg["script"], "counters:", cfg["i_out"], cfg["i_in"])
+            for row in sim.log[:n]:
+                print("   ", row)
+            for ev in sim.hist[:n]:
+                print("   ", repr(ev)[:200])
+            return
         m = self.machine(cfg, trace or {"actions": []})
         m.run()
         print("   config:", {k: v for k, v in cfg.items() if k != "weights"})
